@@ -25,7 +25,9 @@ EXTENDS Constraints, TLC
 
 CONSTANTS Scenarios,            \* the set of scenarios explored (defined in MC_ConstraintsAlgo.tla)
           MaxLen,
-          ForeignGuardMisread, StrictPositiveMin, RaiseOnConflict, NegativeMaxIsError
+          ForeignGuardMisread, StrictPositiveMin, RaiseOnConflict, NegativeMaxIsError,
+          SnapshotStacking      \* (a seeded deviation, off in every committed cfg) a class with several direct parents
+                                \* merges each parent with a snapshot of its own constraints instead of the running result
 
 None == -99                     \* "no bound" (Python None); bounds range over -1..MaxLen
 
@@ -37,10 +39,12 @@ VARIABLES scn,        \* the scenario being processed
           own,        \* unit index -> reduced result of that unit alone:  [has, mn, mx]
           prim,       \* j -> result of constrained primitive Pj after stacking its parents
           byval,      \* k -> slot -> result of class Ck
-          sk,         \* class being stacked onto its parent
+          sk,         \* class being stacked onto its parents
+          pj,         \* index of the next direct parent of class sk (order of the bases)
+          snap,       \* the constraints of class sk before any parent was merged
           errs,       \* errors were collected in the current phase (reported at the end of the phase)
           outcome     \* "running" | "ok" | "error" | "raise"
-vars == <<scn, pc, unit, ai, loose, own, prim, byval, sk, errs, outcome>>
+vars == <<scn, pc, unit, ai, loose, own, prim, byval, sk, pj, snap, errs, outcome>>
 
 NoRes == [has |-> FALSE, mn |-> None, mx |-> None]
 NP == Len(scn.prim)
@@ -128,7 +132,7 @@ Merge(a, b) ==
 Init ==
     /\ scn \in Scenarios
     /\ pc = "match" /\ unit = 1 /\ ai = 1 /\ loose = <<>>
-    /\ own = <<>> /\ prim = <<>> /\ byval = <<>> /\ sk = 2 /\ errs = FALSE
+    /\ own = <<>> /\ prim = <<>> /\ byval = <<>> /\ sk = 2 /\ pj = 1 /\ snap = [v |-> NoRes, i |-> NoRes] /\ errs = FALSE
     /\ outcome = "running"
 
 Fail(o) == outcome' = o /\ pc' = "done" /\ UNCHANGED <<scn, unit, ai, loose, own, prim, byval, sk, errs>>
@@ -139,6 +143,7 @@ AfterClass(u) == /\ unit' = u + 1 /\ ai' = 1 /\ loose' = <<>>
 
 \* one invariant of the current unit is matched
 MatchStep ==
+    /\ UNCHANGED <<pj, snap>>
     /\ pc = "match" /\ unit <= NP + NC /\ ai <= Len(UnitAtoms(unit))
     /\ LET a == UnitAtoms(unit)[ai]
            m == Match(a)
@@ -148,6 +153,7 @@ MatchStep ==
 
 \* all invariants of the unit matched: reduce them
 ReduceStep ==
+    /\ UNCHANGED <<pj, snap>>
     /\ pc = "match" /\ unit <= NP + NC /\ ai > Len(UnitAtoms(unit))
     /\ LET r == Reduce(loose) IN
        IF r[1] = "raise" THEN Fail("raise")
@@ -164,6 +170,7 @@ ReduceStep ==
 
 \* B: constrained primitives inherit from their parent (topological order)
 PrimStack ==
+    /\ UNCHANGED <<pj, snap>>
     /\ pc = "primstack"
     /\ IF errs THEN Fail("error")
        ELSE IF Len(prim) = NP
@@ -177,6 +184,7 @@ PrimStack ==
 \* C (second half): the constrained primitive is in-lined into the property-level result of class `unit`
 PrimRes == IF NP = 0 THEN NoRes ELSE prim[NP]
 Inline ==
+    /\ UNCHANGED <<pj, snap>>
     /\ pc = "inline"
     /\ LET o == own[unit]
            v == IF scn.kind = "cprim" THEN Merge(o, PrimRes) ELSE <<"ok", o>>
@@ -187,19 +195,28 @@ Inline ==
                 /\ AfterClass(unit)
                 /\ UNCHANGED <<scn, own, prim, sk, outcome>>
 
-\* D: classes inherit from their parent (topological order)
+\* D: classes inherit from their direct parents, one parent at a time in the order of the bases (the classes are
+\* visited in topological order, so every parent is complete when it is merged)
+ParentSeq(k) ==
+    IF scn.shape = "chain" THEN <<k - 1>>
+    ELSE CASE k = 2 -> <<1>> [] k = 3 -> <<1>> [] k = 4 -> (IF scn.shape = "dia_ab" THEN <<2, 3>> ELSE <<3, 2>>)
 ClassStack ==
     /\ pc = "classstack"
-    /\ IF errs THEN Fail("error")
+    /\ IF errs THEN Fail("error") /\ UNCHANGED <<pj, snap>>
        ELSE IF sk > NC
-       THEN outcome' = "ok" /\ pc' = "done" /\ UNCHANGED <<scn, unit, ai, loose, own, prim, byval, sk, errs>>
-       ELSE LET mv == Merge(byval[sk - 1].v, byval[sk].v)
-                mi == Merge(byval[sk - 1].i, byval[sk].i)
-            IN  IF mv[1] # "ok" THEN Fail(mv[1])
-                ELSE IF mi[1] # "ok" THEN Fail(mi[1])
+       THEN outcome' = "ok" /\ pc' = "done" /\ UNCHANGED <<scn, unit, ai, loose, own, prim, byval, sk, pj, snap, errs>>
+       ELSE IF pj > Len(ParentSeq(sk))
+       THEN sk' = sk + 1 /\ pj' = 1 /\ UNCHANGED <<scn, pc, unit, ai, loose, own, prim, byval, snap, errs, outcome>>
+       ELSE LET p == ParentSeq(sk)[pj]
+                before == IF pj = 1 THEN byval[sk] ELSE snap
+                that == IF SnapshotStacking THEN before ELSE byval[sk]
+                mv == Merge(byval[p].v, that.v)
+                mi == Merge(byval[p].i, that.i)
+            IN  IF mv[1] # "ok" THEN Fail(mv[1]) /\ UNCHANGED <<pj, snap>>
+                ELSE IF mi[1] # "ok" THEN Fail(mi[1]) /\ UNCHANGED <<pj, snap>>
                 ELSE /\ byval' = [byval EXCEPT ![sk] = [v |-> mv[2], i |-> mi[2]]]
-                     /\ sk' = sk + 1
-                     /\ UNCHANGED <<scn, pc, unit, ai, loose, own, prim, errs, outcome>>
+                     /\ pj' = pj + 1 /\ snap' = before
+                     /\ UNCHANGED <<scn, pc, unit, ai, loose, own, prim, sk, errs, outcome>>
 
 Next == MatchStep \/ ReduceStep \/ PrimStack \/ Inline \/ ClassStack
 Spec == Init /\ [][Next]_vars /\ WF_vars(Next)
@@ -230,7 +247,7 @@ PinnedErrorExplainable == Done /\ outcome = "error" /\ ~HasForeignLen => SomeUns
 TypeOK == /\ pc \in {"match", "primstack", "inline", "classstack", "done"}
           /\ outcome \in {"running", "ok", "error", "raise"}
           /\ (outcome # "running") <=> Done
-          /\ Len(own) <= NP + NC /\ Len(prim) <= NP /\ Len(byval) <= NC /\ errs \in BOOLEAN /\ sk \in 2..(NC + 1)
+          /\ Len(own) <= NP + NC /\ Len(prim) <= NP /\ Len(byval) <= NC /\ errs \in BOOLEAN /\ sk \in 2..(NC + 1) /\ pj \in 1..3
 Progress == Done \/ ENABLED Next          \* the machine never gets stuck before it has an outcome
 Terminates == <>Done
 =============================================================================
